@@ -87,6 +87,11 @@ ThresholdOK(s) == 1 <= s.threshold /\ s.threshold <= Cardinality(s.attesters)
 DontCare(m) ==
   \/ (m.type = "ReceiveMessage" /\ m.wire.k = "msg" /\ ~IsZero32(m.wire.caller) /\ m.wire.caller.hi # "z")
   \/ (m.type \in ReplTypes /\ m.caller.n # 32)
+  \* registering values that can never work (the code accepts them today; refusing them would break no property)
+  \/ (m.type = "EnableAttester" /\ UsableAttester(m.att) /\ m.att.key \notin RealKeys)        \* not a public key
+  \/ (m.type = "AddRemoteTokenMessenger" /\ IsZero32(m.addr))
+  \/ (m.type = "LinkTokenPair" /\ m.denom \notin {"MINT", "MINT_UP", "MINT_LOW", "OTHER", "OTHER_UP"})
+  \/ (m.type = "SetMaxBurnAmountPerMessage" /\ (m.amt < 0 \/ m.denom \notin {"MINT", "MINT_UP", "MINT_LOW", "OTHER", "OTHER_UP"}))
 RegistryTypes == {"LinkTokenPair", "UnlinkTokenPair", "AddRemoteTokenMessenger", "RemoveRemoteTokenMessenger",
                   "SetMaxBurnAmountPerMessage", "EnableAttester", "DisableAttester"}
 
@@ -206,7 +211,7 @@ LensR(p, pre, m, f, o, r) ==
   IN
   CASE p = "C01" ->
          \* "currently enabled" and "threshold" mean what the history of transactions established
-         /\ o.post.attesters = r.post.attesters /\ o.post.threshold = r.post.threshold
+         /\ ~DontCare(m) => (o.post.attesters = r.post.attesters /\ o.post.threshold = r.post.threshold)
          /\ HasAtt(m) =>
               \* the verifier accepts exactly the quorum attestations; no handler accepts without one
               /\ (o.vas = "ok") <=> AttestDecl(pre.attesters, pre.threshold, m.att)
@@ -288,7 +293,7 @@ LensR(p, pre, m, f, o, r) ==
          /\ ((pre.pausedBM \/ pre.pausedSR) /\ exp.res = "ok" /\ ~DontCare(m)) => res = "ok"   \* unnamed flows / admin stay available
     [] p = "C13" ->
          /\ ThresholdOK(o.post)
-         /\ m.type \in AttMgrTypes =>
+         /\ (m.type \in AttMgrTypes /\ ~DontCare(m)) =>
                (res = exp.res /\ o.post.attesters = r.post.attesters /\ o.post.threshold = r.post.threshold)
     [] p = "C14" /\ m.type = "Batch" ->
          LET silent == \E i \in DOMAIN m.msgs : DontCare(m.msgs[i]) IN     \* (a message the properties are silent about)
@@ -310,7 +315,7 @@ LensR(p, pre, m, f, o, r) ==
     [] p = "C19" ->
          \* registries are exact maps: adding, removing and setting behave as specified, and no transaction
          \* (whatever its own fate) leaves the registries in another shape than the specification says
-         /\ m.type \in RegistryTypes => res = exp.res
+         /\ (m.type \in RegistryTypes /\ ~DontCare(m)) => res = exp.res
          /\ (res = exp.res /\ ~DontCare(m)) =>
               <<o.post.attesters, o.post.limits, o.post.pairs, o.post.msgrs, o.post.used>>
                 = <<r.post.attesters, r.post.limits, r.post.pairs, r.post.msgrs, r.post.used>>
